@@ -370,9 +370,16 @@ def import_cases(ctx):
           for onpath in ('absent', 'front', 'last'):
             # the module's directory may already be an entry of sys.path (a project root, the current directory)
             sys.path[:] = {'absent': real_path0, 'front': [tmp] + real_path0, 'last': real_path0 + [tmp]}[onpath]
-            for index in (-1, 0):
-                modname = 'xdverif_c12_%s_%s_%s' % (name, 'm1' if index < 0 else '0', onpath)
-                p = os.path.join(tmp, modname + '.py')
+            for index in (-1, 0, 'link'):
+                # 'link': the module is addressed through a directory that is a symbolic link (a `current -> releases/v12` layout)
+                via_link = index == 'link'
+                if via_link:
+                    index = -1
+                    linkdir = os.path.join(tmp, 'current_link')
+                    if not os.path.exists(linkdir):
+                        os.symlink(tmp, linkdir)
+                modname = 'xdverif_c12_%s_%s_%s%s' % (name, 'm1' if index < 0 else '0', onpath, '_l' if via_link else '')
+                p = os.path.join(linkdir if via_link else tmp, modname + '.py')
                 open(p, 'w').write(src + '\ndef f():\n    """\n    >>> print(1)\n    1\n    """\n')
                 ctx.evaluations += 1
                 before = snapshot()
@@ -401,7 +408,7 @@ def import_cases(ctx):
                 # the same through the doctest pre-import
                 ctx.evaluations += 1
                 modname2 = modname + '_dt'
-                p2 = os.path.join(tmp, modname2 + '.py')
+                p2 = os.path.join(linkdir if via_link else tmp, modname2 + '.py')
                 open(p2, 'w').write(src + '\ndef f():\n    """\n    >>> print(1)\n    1\n    """\n')
                 ex = doctest_example.DocTest(docsrc='>>> print(1)\n1', modpath=p2, callname='f', lineno=1)
                 before = snapshot()
